@@ -148,14 +148,51 @@ fn check_history(hist: &[NaiveDate], extra_probes: &[NaiveDate], perm_seed: u64)
     if bytes.len() - cursor.position() as usize != 2 {
         return Err(format!("stream framing: {} trailing bytes instead of 2", bytes.len() - cursor.position() as usize));
     }
-    // truncated input is an error, not a panic and not a success
+    // truncated input is an error, not a panic and not a success: every proper prefix of a short
+    // stream, the last byte cut off a long one
+    // (every prefix and the short-read readers for one history in 32; the last byte cut off for all)
+    let heavy = perm_seed % 32 == 0;
     if len1 > 0 {
-        let cut = &bytes[..len1 - 1];
-        if CompactCalendar::deserialize(cut).is_ok() {
-            return Err("deserialize accepted a truncated stream".into());
+        let cuts: Vec<usize> = if heavy && len1 <= 256 { (0..len1).collect() } else if heavy && len1 < 100_000 { vec![len1 - 1, len1 / 2, 7, 8, 9].into_iter().filter(|c| *c < len1).collect() } else { vec![len1 - 1] };
+        for cut in cuts {
+            if CompactCalendar::deserialize(&bytes[..cut]).is_ok() {
+                return Err(format!("deserialize accepted a stream truncated to {cut} of {len1} bytes"));
+            }
+        }
+    }
+    // a reader may legally return fewer bytes than asked for (pipes, sockets, buffered files): the
+    // same stream through readers that hand out 1, 3, 5 or a varying number of bytes per call
+    for chunk in if heavy && len1 < 100_000 { vec![1usize, 3, 5, 0] } else if heavy { vec![0] } else { vec![] } {
+        let mut reader = ChunkedReader { data: &bytes, pos: 0, chunk, calls: 0 };
+        let a = CompactCalendar::deserialize(&mut reader).map_err(|e| format!("deserialize through a reader returning short reads (chunk {chunk}): {e}"))?;
+        if a != cal || reader.pos != len1 {
+            return Err(format!("deserialize through a reader returning short reads (chunk {chunk}): calendar differs or {} bytes consumed instead of {len1}", reader.pos));
+        }
+        let b = CompactCalendar::deserialize(&mut reader).map_err(|e| format!("second calendar through a reader returning short reads (chunk {chunk}): {e}"))?;
+        if b != more {
+            return Err(format!("second calendar of a stream read in short reads (chunk {chunk}) not recovered"));
         }
     }
     Ok(())
+}
+
+/// A reader that returns at most `chunk` bytes per call (a varying 1..7 when `chunk` is 0).
+struct ChunkedReader<'a> {
+    data: &'a [u8],
+    pos: usize,
+    chunk: usize,
+    calls: usize,
+}
+
+impl std::io::Read for ChunkedReader<'_> {
+    fn read(&mut self, buf: &mut [u8]) -> std::io::Result<usize> {
+        self.calls += 1;
+        let k = if self.chunk == 0 { 1 + (self.calls * 5 + self.pos) % 7 } else { self.chunk };
+        let n = k.min(buf.len()).min(self.data.len() - self.pos);
+        buf[..n].copy_from_slice(&self.data[self.pos..self.pos + n]);
+        self.pos += n;
+        Ok(n)
+    }
 }
 
 fn check_year_month(r: &mut Rng) -> Result<(), String> {
